@@ -8,7 +8,7 @@ World (heights concrete unless a harness says otherwise):
 
 Unspent map at P (owners concrete, values symbolic):
     (T10,0) -> K0   (T10,1) -> K1   (T11,0) -> K0   (T12,0) -> K2
-Spent by P (still unspent on F):    (T14,0) -> K0   "spent earlier"
+Spent by P (still unspent on F):    (T14,0) -> K3   "spent earlier"
 Only in F's map (other fork):      F's reward output (T3,0) -> K3   "other-fork output"
 The blocks carry the transactions that create / spend these outputs, so replaying R, P (or R, F) from scratch
 reproduces the maps.
@@ -144,7 +144,7 @@ class World:
         t10 = dt.Transaction([], [dt.Output(pv[0], k[0]), dt.Output(pv[1], k[1])], cached_hash=tok(TX, 10))
         t11 = dt.Transaction([], [dt.Output(pv[2], k[0])], cached_hash=tok(TX, 11))
         t12 = dt.Transaction([], [dt.Output(pv[3], k[2])], cached_hash=tok(TX, 12))
-        t14 = dt.Transaction([], [dt.Output(7, k[0])], cached_hash=tok(TX, 14))
+        t14 = dt.Transaction([], [dt.Output(7, k[3])], cached_hash=tok(TX, 14))      # a different owner: never byte-identical to t11
         s14 = dt.Transaction([dt.Input(dt.OutputReference(tok(TX, 14), 0), self.sg.SECP256k1Signature(bytes([0x77]) * 64))], [],
                              cached_hash=tok(TX, 16))                    # P spends (T14,0): "spent earlier"
         self.cbF = env.coinbase(h - 1, [dt.Output(fv, k[3])], tok(TX, 3))
